@@ -541,7 +541,8 @@ def rejection_cases(chk):
     for u in (1 << 63, (1 << 63) + 5, 1 << 62):
         p = Prog(); p.bankdef(bank(u), "a", 1); p.addr(6); p.label()
         out.append(("extreme_unit_addr_F38", True, p))
-    # F48: the END of a bank window (outp + size) overflows usize in check_bank_overlap
+    # regression for F48 (fixed, /repo abbd199): the END of a bank window (outp + size) is not representable -- it ends after
+    # everything; no panic, debug = release = model
     for (o1, s1) in ((U64, 1), (U64 - 7, 16), (U64 - 1, 2)):
         p = Prog()
         p.bankdef({"addr": 0, "unit": 1, "labelalign": None, "size": s1, "outp": o1, "fill": False}, "a", 1)
@@ -555,7 +556,8 @@ def rejection_cases(chk):
         else:
             p.res(1)
         out.append(("huge_position_unwritten_" + what, False, p))
-    # F61: outp + position overflows usize for an item that is not written (get_output_position, plain +)
+    # regression for F61 (fixed, /repo 6fb2301): outp + position of an unwritten item is not representable -- the label gets no
+    # span position, the #res skips the overlap insertion; no panic, debug = release = model
     p = Prog(); p.bankdef(bank(8, None, outp=U64), "a", 1); p.res(1); p.label()
     out.append(("output_position_overflow_F61", None, p))
     p = Prog(); p.bankdef(bank(0x80000000), "a", 1); p.res(0xffffffff); p.res(0xffffffff); p.res(4); p.label()
@@ -582,19 +584,6 @@ def compare_program(chk, p, family, must_reject, d, r, m, known, stats):
     """d, r: implementation answers (debug, release); m: model answer.  Returns True if everything agreed."""
     prog = p.render()
     rep = {"kind": "banks-program", "family": family, "program": prog, "model_case": p.model_line(), "debug": d[:2000], "release": r[:2000], "model": m[:2000]}
-    if family.startswith("window_end_overflow") and (d != r or canon_impl(d) not in ("OK", "ERR")) and m.split(" ")[0] == "PANIC" \
-            and "bank_window_end_overflow" in known:
-        chk.known(known["bank_window_end_overflow"]["id"], "class=bank_window_end_overflow: outp + size of a bank window overflows usize in "
-                  "check_bank_overlap (debug %s, release %s; the model's checked addition panics too)" % (d[:20], r[:20]))
-        stats["crash"] += 1
-        return True
-    if family.startswith("output_position_overflow") and (d != r or canon_impl(d) not in ("OK", "ERR")) and m.split(" ")[0] == "PANIC":
-        anyk = {f.get("class"): f for f in vlib.known_findings() if f.get("status") == "known"}
-        if "output_position_overflow_unwritten" in anyk:
-            chk.known(anyk["output_position_overflow_unwritten"]["id"], "class=output_position_overflow_unwritten: outp + position overflows usize in "
-                      "get_output_position for an unwritten item (debug %s, release %s; the model's checked addition panics too)" % (d[:20], r[:20]))
-            stats["crash"] += 1
-            return True
     if d != r:
         chk.violation("debug and release builds disagree (%s)" % family, dict(rep, kind="profile-divergence"))
         return False
